@@ -38,6 +38,16 @@ def scores_part(ck, tier):
                 loo = float(gp.loo_likelihood(hp))
                 loo2, g_loo = gp.loo_likelihood_gradient(hp)
                 mu_l, sd_l = gp.loo_predictions()
+                # other hyper-parameters set and read in between, then the original ones again: nothing may be carried over
+                gp.set_hyperparameters(hp + 0.37)
+                mu_o, sd_o = gp.loo_predictions()
+                fresh, _, _ = GE.regressor(pb)                  # the same state reached without any earlier read-out
+                fresh.set_hyperparameters(hp + 0.37)
+                mu_of, sd_of = fresh.loo_predictions()
+                path_ok = bool(np.allclose(mu_o, mu_of, rtol=1e-10, atol=1e-12) and np.allclose(sd_o, sd_of, rtol=1e-10, atol=1e-12))
+                gp.set_hyperparameters(hp)
+                mu_l2, sd_l2 = gp.loo_predictions()
+                lml_again, loo_again = float(gp.marginal_likelihood(hp)), float(gp.loo_likelihood(hp))
         except Exception as ex:
             ck.violation("model-selection call raised", {**idn, "error": repr(ex)[:300]}, site="GpRegressor.scores")
             continue
@@ -94,6 +104,10 @@ def scores_part(ck, tier):
             ck.violation("leave-one-out predictions = prediction of each observation from the rest",
                          {**idn, "want_mean": want_mv[:, 0], "want_var": want_mv[:, 1], "mean": mu_l, "var": np.asarray(sd_l) ** 2},
                          site="GpRegressor.loo_predictions")
+        if not (GE.close(mu_l2, want_mv[:, 0], float(np.max(np.abs(pb["y"])) + 1)) and GE.close(np.asarray(sd_l2) ** 2, want_mv[:, 1])
+                and lml_again == lml and loo_again == loo and path_ok):
+            ck.violation("leave-one-out predictions / scores after other hyper-parameters were set and the original ones restored",
+                         {**idn, "want_mean": want_mv[:, 0], "mean_first": mu_l, "mean_after_restoring": mu_l2}, site="GpRegressor.loo_predictions:stale-state")
         g_lml, g_loo = np.asarray(g_lml, dtype=float), np.asarray(g_loo, dtype=float)
         # gradients: [mean parameters..., covariance parameters...]
         wm = np.array([G.fr(v) for v in c["lmlgm"]])
@@ -137,11 +151,19 @@ def selection_part(ck, tier):
             for cv in (False, True):
                 kern = SquaredExponential if case % 2 == 0 else RationalQuadratic
                 mean = ConstantMean if case % 4 < 2 else LinearMean
+                # bounds given by the user for the covariance function only, for the mean function only, or for neither
+                user = (None, "kernel", "mean")[case % 3]
+                nk = (1 + d) if kern is SquaredExponential else (2 + d)
+                nm = 1 if mean is ConstantMean else 1 + d
+                ub_k = [(-1.0, 2.0)] + ([(-0.5, 1.5)] if kern is RationalQuadratic else []) + [(-2.0, 1.0)] * d
+                ub_m = [(-4.0, 4.0)] * nm
+                kern_arg = kern(hyperpar_bounds=ub_k) if user == "kernel" else kern
+                mean_arg = mean(hyperpar_bounds=ub_m) if user == "mean" else mean
                 np.random.seed(int(rng.integers(0, 2 ** 31)))
                 try:
                     with warnings.catch_warnings(), np.errstate(all="ignore"):
                         warnings.simplefilter("ignore")
-                        gp = GpRegressor(x=x if d > 1 else x[:, 0], y=y, y_err=yerr * (0.1 if opt == "bfgs1" else 1.0), kernel=kern, mean=mean,
+                        gp = GpRegressor(x=x if d > 1 else x[:, 0], y=y, y_err=yerr * (0.1 if opt == "bfgs1" else 1.0), kernel=kern_arg, mean=mean_arg,
                                          cross_val=cv, optimizer="bfgs" if opt == "bfgs1" else opt, **({"n_starts": 1} if opt == "bfgs1" else {}))
                         hp = np.asarray(gp.hyperpars, dtype=float)
                         b = np.array(gp.hp_bounds, dtype=float)
@@ -153,9 +175,14 @@ def selection_part(ck, tier):
                     continue
                 width = b[:, 1] - b[:, 0]
                 inb = bool(np.all(hp >= b[:, 0] - 1e-9 * width) and np.all(hp <= b[:, 1] + 1e-9 * width))
+                # bounds the user gave are the advertised ones (mean parameters come first)
+                if user == "kernel":
+                    inb = inb and b.shape[0] == nm + nk and bool(np.allclose(b[nm:], np.array(ub_k)))
+                elif user == "mean":
+                    inb = inb and b.shape[0] == nm + nk and bool(np.allclose(b[:nm], np.array(ub_m)))
                 better = bool(s_res >= s_cen - 1e-9 * max(1.0, abs(s_cen)))
                 events.append({"opt": "bfgs" if opt == "bfgs1" else opt, "cv": cv, "inbounds": inb, "better": better})
-                idents.append({"case": case, "n": n, "d": d, "optimizer": opt, "cross_val": cv, "kernel": kern.__name__, "mean": mean.__name__,
+                idents.append({"case": case, "n": n, "d": d, "optimizer": opt, "cross_val": cv, "kernel": kern.__name__, "mean": mean.__name__, "bounds_given_by_user_for": user,
                                "hyperpars": hp.tolist(), "bounds": b.tolist(), "score": s_res, "score_at_centre": s_cen})
                 ck.case(("select", case, opt, cv))
     d_ = scratch("c11_")
